@@ -15,6 +15,7 @@ import (
 	"time"
 
 	"verif/internal/build"
+	"verif/internal/c10"
 	"verif/internal/c14"
 	"verif/internal/c20"
 	"verif/internal/core"
@@ -23,6 +24,7 @@ import (
 )
 
 var checks = map[string]core.CheckFunc{
+	"C10": c10.Run,
 	"C14": c14.Run,
 	"C20": c20.Run,
 }
